@@ -2,6 +2,7 @@
 From Coq Require Import ZArith Arith List Bool.
 From B2Z Require Import Base.Prims Model.Plink Model.Partitions Proofs.PlinkProofs Proofs.PartitionsProofs Bridge.BridgePartitions.
 From B2Z Require Gen.GenPartitions.
+From B2Z Require Import Base.PlinkOps Gen.GenPlink Bridge.BridgePlink.
 Import ListNotations.
 Open Scope Z_scope.
 
@@ -57,6 +58,54 @@ Proof.
   exists ps. split; [exact E|exact R].
 Qed.
 Print Assumptions plink_rows_once.
+
+(* ---- TRANSLATOR TIE: the worker task plink.encode_genotypes_slice as regenerated from the source on
+   this run (translator/plink2coq.py -> Gen/GenPlink.v) ------------------------------------------- *)
+
+(* the masked assignments of the source (zeros; [-127] -> -1,-1; [2] -> 1,1; [1] -> first allele 1), in
+   their source order, compute the documented dosage -> call mapping for EVERY integer *)
+Theorem translated_call_mapping : forall v, gen_call v = call_of_count v.
+Proof. exact translated_call_mapping_lemma. Qed.
+Print Assumptions translated_call_mapping.
+
+(* the reader is opened counting the SECOND allele (count_A1=False): the contract a2_count is about *)
+Theorem translated_reader_counts_a2 : (gen_count_a1 = false) /\ (gen_requires_aligned_start = true).
+Proof. split; reflexivity. Qed.
+Print Assumptions translated_reader_counts_a2.
+
+(* for every input row, from ANY lock-step position r, the translated row program hands out logical
+   row r of each of the three buffers exactly once and stores: the call pairs of the row's dosages,
+   all-false phasing, and the mask (allele = -1) of exactly those pairs *)
+Theorem translated_row_program : forall r values,
+  exists s, exec_ops gen_call values (start_iteration (lockstep r)) gen_row_ops = Some s /\
+    (forall b, cnt s b = r + 1) /\ (forall b, last s b = Some r) /\
+    cell_gt s = Some (map call_of_count values) /\
+    cell_ph s = Some (map (fun _ => false) values) /\
+    cell_mask s = Some (map (fun v => (fst (call_of_count v) =? -1, snd (call_of_count v) =? -1)) values).
+Proof. exact translated_row_program_lemma. Qed.
+Print Assumptions translated_row_program.
+
+(* the translated read loop reads the rows start, start+1, ..., stop-1 of the .bed, each once, in
+   order, for every chunk size; from a chunk-aligned start no read crosses a chunk boundary *)
+Theorem translated_slice_rows : forall start stop cs, 1 <= cs -> start <= stop ->
+  concat (map (fun p => zrange (fst p) (snd p)) (gen_slice_reads (Z.to_nat (stop - start)) start stop cs)) = zrange start stop.
+Proof. exact translated_slice_rows_lemma. Qed.
+Print Assumptions translated_slice_rows.
+
+Theorem translated_reads_chunk_aligned : forall start stop cs, 1 <= cs -> start mod cs = 0 ->
+  Forall (fun p => fst p mod cs = 0 /\ fst p < snd p /\ snd p <= fst p + cs /\ snd p <= stop)
+         (gen_slice_reads (Z.to_nat (stop - start)) start stop cs).
+Proof. exact translated_reads_chunk_aligned_lemma. Qed.
+Print Assumptions translated_reads_chunk_aligned.
+
+(* every buffer is flushed after the loop *)
+Theorem translated_task_flushes_every_buffer : forall b, In b gen_final_flushes.
+Proof. intros b. destruct b; cbv; tauto. Qed.
+Print Assumptions translated_task_flushes_every_buffer.
+
+Example translated_slice_instance :
+  gen_slice_reads 7 10 17 5 = [(10, 15); (15, 17)] /\ map gen_call [0; 1; 2; -127] = [(0, 0); (1, 0); (1, 1); (-1, -1)].
+Proof. vm_compute. split; reflexivity. Qed.
 
 Example c16_sample_major_instance :
   decode_bed_any (encode_bed_sample_major [[0; 1; 2]; [3; 3; 0]; [1; 0; 2]; [2; 2; 2]; [0; 3; 1]] 3 [[3; 3; 3]; [1; 2; 1]; [0; 0; 0]]) 3 5
